@@ -555,6 +555,9 @@ func (g *Gen) havocElems(st *State, arr string, et types.Type) {
 		g.heapWF(nh.S, s, g.curBase, false)
 		g.sc.Assume(fmt.Sprintf("(forall ((r Ref)) (! (or (= (elemArr r) %s) (= (select %s r) (select %s r))) :pattern ((select %s r))))", arr, nh.S, old.S, nh.S))
 		st.heaps[key] = nh
+		if key == "H_Int_uint8" {
+			g.bytesFrame(nh.S, old.S, "(not (= (sarr s) "+arr+"))")
+		}
 		g.logWholeWrite(key, s, "elems:"+arr)
 	}
 }
@@ -717,6 +720,9 @@ func (g *Gen) copyElemsQuant(st *State, dst, src string, et types.Type, cond str
 			g.logWholeWrite(key, s, "shape:"+sh)
 		}
 		st.heaps[key] = nh
+		if key == "H_Int_uint8" {
+			g.bytesFrame(nh.S, old.S, "(not (= (sarr s) (sarr "+dst+")))")
+		}
 	}
 }
 
@@ -739,6 +745,9 @@ func (g *Gen) appendElemsQuant(st *State, res, s, add string, et types.Type) {
 			g.logWholeWrite(key, so, "shape:"+sh)
 		}
 		st.heaps[key] = nh
+		if key == "H_Int_uint8" {
+			g.bytesFrame(nh.S, old.S, "(not (= (sarr s) (sarr "+res+")))")
+		}
 	}
 }
 
@@ -781,6 +790,9 @@ func (fr *Frame) execCopy(cc *ssa.CallCommon, args []Term, c *blockCtx) Term {
 				n.S, nh.S, di, old.S, si, nh.S, di))
 		}
 		c.st.heaps[key] = nh
+		if key == "H_Int_uint8" {
+			g.bytesFrame(nh.S, old.S, "(not (= (sarr s) (sarr "+dst.S+")))")
+		}
 		g.logWholeWrite(key, so, "elems:(sarr "+dst.S+")")
 	}
 	fr.syncArrView(cc.Args[0], c.st)
